@@ -13,7 +13,9 @@ FUNCTIONS = [
 ]
 LEMMAS = []
 # the accounting clause of spawn_process belongs to C04/C14 (known finding F-21 there), not to the count property
-EXCLUDE_CLAUSES = ['post[accounted]:Watcher.spawn_process']
+EXCLUDE_CLAUSES = ['post[accounted]:Watcher.spawn_process',
+                   # C09's clause on the shared contract of manage_processes (known finding F-13 there)
+                   'post[dead-removed-are-reaped]:Watcher.manage_processes']
 FRAMES = [
     {'name': 'numprocesses-writers', 'kind': 'attr_store', 'attr': 'numprocesses',
      'what': 'Watcher.numprocesses is written only by __init__, set_numprocesses, set_opt',
